@@ -1,6 +1,7 @@
 package rules
 
 import (
+	"go/token"
 	"go/types"
 	"strings"
 
@@ -56,6 +57,48 @@ func C13(ctx *core.Ctx, r *core.Report) {
 	})
 	sites := e.sites("K1 K2 K4")
 	e.record("crash", sites, c13Triage)
+	c13KeyArity(ctx, r)
+	c13EqualFormatFirst(ctx, r)
+	parallelIndex(ctx, r, e.reach, func(f *ssa.Function) bool { return c13OutOfScope(f) }, c13ParallelTriage, 5)
+}
+
+var c13ParallelTriage = map[string]string{
+	"nodeutil.jsonKeyMatches/key[i] in range keyFields":              rKeyArity,
+	"nodeutil.sliceAsList.findByKey/target[i] in range candidateKey": rKeyArity,
+}
+
+const rKeyArity = "the requested key is a tuple built by node.NewValues/NewValuesByString, which always has len(KeyMeta) elements, and the path parser rejects a segment with another number of key values (rule key-arity-checked re-checks that on every run); a hand-built ListRequest with a short Key is API misuse"
+
+// c13KeyArity backs rKeyArity: in node.parseUrlPath the call that builds a
+// segment's key is dominated by a comparison of the number of key strings
+// with the number of key leaves.
+func c13KeyArity(ctx *core.Ctx, r *core.Report) {
+	f := ctx.Fn("node", "parseUrlPath")
+	nv := ctx.Fn("node", "NewValuesByString")
+	if f == nil || nv == nil {
+		r.Fatalf("anchors node.parseUrlPath / node.NewValuesByString not found")
+		return
+	}
+	isLen := func(v ssa.Value) bool {
+		c, ok := v.(*ssa.Call)
+		if !ok {
+			return false
+		}
+		b, ok := c.Common().Value.(*ssa.Builtin)
+		return ok && b.Name() == "len"
+	}
+	calls := callsStatic(f, nv, false)
+	for _, c := range calls {
+		ok := false
+		for _, pc := range core.PathConds(c.Block()) {
+			if b, isB := pc.V.(*ssa.BinOp); isB && isLen(b.X) && isLen(b.Y) {
+				ok = true
+			}
+		}
+		r.Ob("key-arity-checked", "node.parseUrlPath→NewValuesByString", ctx.Pos(c.Pos()), ok,
+			"the key of a path segment is built without comparing the number of key values with the number of key leaves: a short key becomes a tuple padded with nil, which the list nodes dereference")
+	}
+	r.Floor("key-arity-checked", len(calls), 1)
 }
 
 // c13OutOfScope: code that is analysed for reachability but whose sites are
@@ -80,4 +123,41 @@ func c13OutOfScope(f *ssa.Function) bool {
 		}
 	}
 	return false
+}
+
+// c13EqualFormatFirst backs the discharge of the type assertions inside the
+// Compare methods (each asserts its argument to its own kind): val.Equal hands
+// b to a.Compare only after a.Format() == b.Format() was established.
+func c13EqualFormatFirst(ctx *core.Ctx, r *core.Report) {
+	f := ctx.Fn("val", "Equal")
+	if f == nil {
+		r.Fatalf("anchor val.Equal not found")
+		return
+	}
+	n := 0
+	for _, c := range core.CallSites(f) {
+		m := core.IfaceMethod(c)
+		if m == nil || m.Name() != "Compare" {
+			continue
+		}
+		n++
+		ok := false
+		for _, pc := range core.PathConds(c.Block()) {
+			b, isB := pc.V.(*ssa.BinOp)
+			if !isB || !((b.Op == token.NEQ && !pc.True) || (b.Op == token.EQL && pc.True)) {
+				continue
+			}
+			fx, okx := b.X.(*ssa.Call)
+			fy, oky := b.Y.(*ssa.Call)
+			if okx && oky {
+				mx, my := core.IfaceMethod(fx), core.IfaceMethod(fy)
+				if mx != nil && my != nil && mx.Name() == "Format" && my.Name() == "Format" {
+					ok = true
+				}
+			}
+		}
+		r.Ob("equal-format-first", "val.Equal→Comparable.Compare", ctx.Pos(c.Pos()), ok,
+			"Equal compares two values with Compare before it knows they have the same format: every Compare method asserts its argument to its own kind and panics on another")
+	}
+	r.Floor("equal-format-first", n, 1)
 }
